@@ -331,9 +331,9 @@ class Run(object):
             r = cl.outstanding(int(w[1]), kinds[op])
             if r is None:
                 return False
-            # the late result of a fetch/offset request the consumer cancelled in stop() (the client swallowed the cancel):
+            # the late result of a request the consumer cancelled in stop() (the client swallowed the cancel):
             # the run that issued it is over, the consumer drops it - for the model the event is not enabled
-            stale = r.cancelled and r.kind != "commit"
+            stale = r.cancelled
             if w[2] == "empty":
                 if op != "commitDone":
                     return False
